@@ -1,6 +1,6 @@
 (* C06 property theorems. Statements closed by `exact lemma`, followed by Print Assumptions. *)
 From Coq Require Import ZArith NArith List Bool String Lia Permutation.
-From OG Require Import C06.Model C06.ModelStream C06.Proofs C06.ProofsInt C06.ProofsDec C06.ProofsRender C06.ProofsStream C06.ProofsFloat C06.ModelWriter C06.ProofsWriter.
+From OG Require Import C06.Model C06.ModelStream C06.Proofs C06.ProofsInt C06.ProofsDec C06.ProofsRender C06.ProofsStream C06.ProofsFloat C06.ProofsFloatAll C06.ModelWriter C06.ProofsWriter.
 Import ListNotations.
 Open Scope Z_scope.
 
@@ -313,6 +313,32 @@ Theorem C06_dec2f_round_ratio_correct : forall neg num den, 0 < num -> 0 < den -
        else if 971 <? sh then FInf neg else FFin neg q sh).
 Proof. exact round_ratio_correct. Qed.
 Print Assumptions C06_dec2f_round_ratio_correct.
+
+(* floats keep their exact value, the reference side with NO premise: for EVERY text, dec2f_exact - the value every stored
+   float is compared with on every run - is zero with the literal's sign when the mantissa is zero, and otherwise the
+   binary64 nearest to mantissa * 10^(exponent - number of fraction digits) among ALL binary64 values (distances in units
+   of 2^-1074, times den), or infinity exactly from the IEEE overflow threshold (2^53 - 1/2) * 2^971 on.  The magnitude
+   shortcuts of dec2f_exact are proved away (C06_dec2f_shortcuts_sound). *)
+Theorem C06_dec2f_exact_nearest_binary64 : forall s,
+  let d := dec_parse s in
+  if d_mant d =? 0 then dec2f_exact s = f64_zero (d_neg d)
+  else
+    let num := fst (dec_ratio d) in let den := snd (dec_ratio d) in
+    0 < num /\ 0 < den /\
+    match dec2f_exact s with
+    | FFin sg m ex =>
+        sg = d_neg d /\ 0 <= m < 2 ^ 53 /\ -1074 <= ex <= 971 /\
+        forall m2 e2, 0 <= m2 < 2 ^ 53 -> -1074 <= e2 <= 971 ->
+          Z.abs (num * 2 ^ 1074 - m * 2 ^ (ex + 1074) * den) <= Z.abs (num * 2 ^ 1074 - m2 * 2 ^ (e2 + 1074) * den)
+    | FInf sg => sg = d_neg d /\ (2 ^ 54 - 1) * 2 ^ 2044 * den <= num * 2 ^ 1074
+    | FNaN => False
+    end.
+Proof. exact dec2f_exact_nearest_double. Qed.
+Print Assumptions C06_dec2f_exact_nearest_binary64.
+
+Theorem C06_dec2f_shortcuts_sound : forall s, dec2f_exact s = dec2f_full s.
+Proof. exact dec2f_exact_full. Qed.
+Print Assumptions C06_dec2f_shortcuts_sound.
 
 Example C06_example_round_ratio :
   round_ratio false 1 10 = FFin false 7205759403792794 (-56) /\                 (* 0.1 = 0x1.999999999999ap-4 *)
